@@ -18,12 +18,23 @@ on top of the commit-log model `Liftbridge/Model/Log.lean`. Layering (IronFleet 
     search `Search/Protocol.lean` finds violating runs for eight distinct root causes, each
     replayed here by kernel evaluation (`*_violates`), each disappearing under the single repair
     of its root cause (`*_repaired`), and each replayed on real commit logs by the harness.
+ 5. who may be elected, and which fetches count (sections 5 and 6 below): `replicator.tick` re-admits a
+    replica to the ISR only if it was CAUGHT UP (its fetch offset reached the leader's log end) within
+    max lag time — `expand_only_caught_up`, through the regenerated decision `Gen.Protocol.tickOutOfSync`
+    (connective and both comparison operators), the regenerated (outOfSync, inISR) action table and the
+    regenerated refresh rule of `lastCaughtUp`; within a term such a replica really stores the log up to
+    that offset (`isr_reentry_sound_within_term`); the controller elects from its ISR only, which grows
+    only by committed expand proposals, which only `tick` makes. A follower's fetch carries the term it
+    follows (regenerated struct literal of `sendReplicationRequest`), that term is never 0, and a leader
+    of another term ignores it entirely (`stale_term_fetch_never_counts`, through the regenerated
+    rejection rule of `handleReplicationRequest`).
 -/
 import Liftbridge.Model.Protocol
 import Liftbridge.Proofs.Epochs
 import Liftbridge.Proofs.Reconcile
 import Liftbridge.Proofs.Protocol
 import Liftbridge.Proofs.ProtocolInv
+import Liftbridge.Proofs.ProtocolIsr
 
 namespace Liftbridge.Props.C02
 open Liftbridge Liftbridge.Log Liftbridge.Log.CLog Liftbridge.Protocol
@@ -270,7 +281,171 @@ theorem leader_view_sound_within_term (c : Cfg) (steps : List Step) (st st' : St
   have J' := termInv_run c steps st st' J hin h
   exact ⟨J', J'.offs⟩
 
+/-! ### 5. ISR membership as `replicator.tick` decides it -/
+
+/-- The facts about replicator.go / partition.go sections 5 and 6 rely on, as regenerated on every
+run: `outOfSync := lastSeenElapsed > maxLagTime || lastCaughtUpElapsed > maxLagTime` (both elapsed
+times measured from `r.lastSeen` / `r.lastCaughtUp`); `tick` calls `shrinkISR()` exactly for
+(outOfSync, inISR) and `expandISR()` exactly for (¬outOfSync, ¬inISR); `r.lastSeen` is set by every
+request (and at start), `r.lastCaughtUp` only by `r.caughtUp` (and at start), which `start` calls only
+under `if req.Offset >= latest` with `latest = r.partition.log.NewestOffset()`; the follower's request
+carries ReplicaID, Offset = `p.log.NewestOffset()` and LeaderEpoch = the epoch its replication loop was
+started for; the leader drops a request iff `req.LeaderEpoch != 0 && req.LeaderEpoch != p.LeaderEpoch`. -/
+theorem isr_glue_facts :
+    Gen.Protocol.tickOutOfSync = .or (.atom 0 .gt) (.atom 1 .gt) ∧
+    Gen.Protocol.tickElapsedSrc = ["lastCaughtUpElapsed=now.Sub(r.lastCaughtUp)", "lastSeenElapsed=now.Sub(r.lastSeen)", "now=time.Now()"] ∧
+    Gen.Protocol.tickShrinkWhen = [(true, true)] ∧ Gen.Protocol.tickExpandWhen = [(false, false)] ∧
+    Gen.Protocol.timerAssignSites = ["replicator.caughtUp:r.lastCaughtUp=req.received@", "replicator.start:r.lastCaughtUp=now@",
+      "replicator.start:r.lastSeen=now@", "replicator.start:r.lastSeen=req.received@"] ∧
+    Gen.Protocol.caughtUpGuarded = true ∧ Gen.Protocol.caughtUpCmp = .ge ∧
+    Gen.Protocol.fetchFields = ["LeaderEpoch=leaderEpoch", "Offset=p.log.NewestOffset()", "ReplicaID=p.srv.config.Clustering.ServerID"] ∧
+    Gen.Protocol.fetchCarriesEpoch = true ∧ Gen.Protocol.fetchOffsetIsNewest = true ∧
+    Gen.Protocol.replReqReject = .and (.atom 0 .ne) (.atom 1 .ne) := by
+  decide
+
+/-- What `tick` computes: a replica is out of sync iff it was not SEEN or was not CAUGHT UP within
+max lag time (the model evaluates the regenerated decision; this is its reading). -/
+theorem tick_out_of_sync_rule (sv : Srv) (r : Sid) :
+    outOfSync sv r = (!sv.seen.contains r || (lookup sv.caughtUp r).isNone) :=
+  outOfSync_eq sv r
+
+/-- The "caught up" flag of replica `src` is refreshed by a fetch only if the fetch offset reached
+the leader's log end (`req.Offset >= latest`). -/
+theorem caught_up_only_at_log_end (c : Cfg) (sv : Srv) (src : Sid) (off : Int) (ep rid : Nat) (x : Sid) (w : Int)
+    (h : lookup (serveStep c sv src off ep rid).1.caughtUp x = some w) :
+    lookup sv.caughtUp x = some w ∨ (x = src ∧ w = off ∧ sv.log.newest ≤ off) :=
+  serveStep_caughtUp c sv src off ep rid x w h
+
+/-- ISR re-entry: a leader's `tick` proposes `ExpandISR r` only for a replica outside its ISR that
+is recorded as CAUGHT UP within max lag time — being seen (alive, fetching) is not enough —, at
+some offset `v`; with the repair `expandNow` that offset covers the leader's HW. -/
+theorem expand_only_caught_up (c : Cfg) (st st' : State) (l r : Sid)
+    (h : step c st (.expandDecision l r) = some st') :
+    ∃ sv v, st.get l = some sv ∧ isLeaderUp sv = true ∧ (keys sv.isrOff).contains r = false ∧
+      lookup sv.caughtUp r = some v ∧ (c.fixes.expandNow = true → sv.log.hw ≤ v) := by
+  obtain ⟨sv, v, h1, h2, _, _, h3, h4, h5, _⟩ := step_expand h
+  exact ⟨sv, v, h1, h2, h3, h4, h5⟩
+
+/-- … and within a leadership term (`TermInv`, steps that neither change roles nor truncate) that
+replica REALLY stores its log up to the offset at which it was seen caught up; with the repair
+`expandNow` (known finding isr-reentry-stale-caught-up) up to the leader's HW, i.e. every committed
+offset. -/
+theorem isr_reentry_sound_within_term (c : Cfg) (steps : List Step) (st st' st'' : State) (J : TermInv st)
+    (hin : ∀ s ∈ steps, InTerm s) (h : run c st steps = some st') (l r : Sid)
+    (hx : step c st' (.expandDecision l r) = some st'') :
+    ∃ sv v sr, st'.get l = some sv ∧ lookup sv.caughtUp r = some v ∧ st'.get r = some sr ∧ v ≤ sr.log.newest ∧
+      (c.fixes.expandNow = true → sv.log.hw ≤ sr.log.newest) := by
+  have J' := termInv_run c steps st st' J hin h
+  obtain ⟨sv, v, h1, _, _, _, _, h4, h5, _⟩ := step_expand hx
+  obtain ⟨sr, hsr, hle⟩ := J'.cu l sv h1 r v h4
+  exact ⟨sv, v, sr, h1, h4, hsr, hle, fun hf => Int.le_trans (h5 hf) hle⟩
+
+/-- The controller elects a member of ITS ISR other than the current leader … -/
+theorem elected_from_isr (c : Cfg) (st st' : State) (cand : Sid) (h : step c st (.electDecision cand) = some st') :
+    cand ∈ (metaView c.n st.committed).isr ∧ cand ≠ (metaView c.n st.committed).leader :=
+  ⟨(step_elect h).1, (step_elect h).2.1⟩
+
+/-- … that ISR gains a member only by a committed `ExpandISR` of that member (or at creation) … -/
+theorem isr_member_was_expanded (n : Nat) (ops : List MetaOp) (op : MetaOp) (r : Sid)
+    (h : r ∈ (metaView n (ops ++ [op])).isr) :
+    r ∈ (metaView n ops).isr ∨ op = .expand r ∨ ∃ l, op = .create l :=
+  isr_grows_only_by_expand n ops op r h
+
+/-- … and an `ExpandISR r` proposal is only ever made by a leader's `tick` (`expand_only_caught_up`). -/
+theorem expand_proposed_only_by_tick (c : Cfg) (st st' : State) (s : Step) (r : Sid) (h : step c st s = some st')
+    (hm : MetaOp.expand r ∈ st'.proposed) : MetaOp.expand r ∈ st.proposed ∨ ∃ l, s = .expandDecision l r :=
+  step_proposed_expand h hm
+
+/-- Guard scenario `isr-reentry-not-caught-up` (corpus/C02/guards): replica 1 is removed from the
+ISR, the leader commits message 0 with the remaining ISR, replica 1 fetches from behind (offset -1)
+and the response is lost — it is seen, not caught up. -/
+def notCaughtUpScenario : List IStep :=
+  [.raftCommit (.create 0), .applyNext 0, .applyNext 1, .offServe 0 0, .reconcile 1 0, .applyNext 2, .offServe 0 0, .reconcile 2 0, .shrinkDecision 0 1, .raftCommit (.shrink 1), .applyNext 0, .commit 0, .publish 0 [{ mid := 0, cid := 100, policy := .all }], .fetch 2, .serve 0 0, .applyResp 2 0, .fetch 2, .serve 0 0, .applyResp 2 0, .commit 0, .commit 0, .fetch 1, .serve 0 0, .drop 0]
+
+/-- In that state the leader has SEEN replica 1 within max lag time, has committed offset 0, and
+its `tick` does not propose the re-entry of replica 1 (kernel evaluation of the regenerated rule). -/
+theorem notCaughtUp_not_readmitted :
+    (irun {} (init {}) notCaughtUpScenario).map (fun st =>
+      ((st.get 0).map fun sv => (sv.seen.contains 1, lookup sv.caughtUp 1, sv.log.hw), (istep {} st (.expandDecision 0 1)).isSome)) =
+    some (some (true, none, 0), false) := by
+  decide +kernel
+
+/-! ### 6. fetches of another term never count -/
+
+/-- A follower's fetch carries its newest offset and the leader epoch it follows. -/
+theorem fetch_carries_term (c : Cfg) (st st' : State) (f : Sid) (h : step c st (.fetch f) = some st') :
+    ∃ sv, st.get f = some sv ∧ sv.role = .follower ∧
+      st'.net = st.net ++ [.replReq f sv.log.newest sv.leaderEpoch (sv.rid + 1)] := by
+  obtain ⟨sv, h1, _, h2, h3, _⟩ := step_fetch h
+  exact ⟨sv, h1, h2, h3⟩
+
+/-- A fetch naming another non-zero leader epoch changes nothing on the leader — not the recorded
+ISR offset, not the commit-check signal, not the "seen"/"caught up" flags — and is not answered. -/
+theorem other_term_fetch_ignored (c : Cfg) (sv : Srv) (src : Sid) (off : Int) (ep rid : Nat)
+    (h0 : ep ≠ 0) (hne : ep ≠ sv.leaderEpoch) : serveStep c sv src off ep rid = (sv, []) :=
+  serveStep_other_term c sv src off ep rid h0 hne
+
+/-- In every reachable state a server that follows (or leads, or reconciles) has a positive leader
+epoch: the epoch is the index of a Raft entry. (Invariant over ALL steps, including crash, restart
+with replay, elections and reconciliation.) So the zero-epoch escape of the term fence is never
+taken by a fetch of the model's followers. -/
+theorem follower_epoch_pos (c : Cfg) (st : State) (hr : Reachable c st) (s : Sid) (sv : Srv)
+    (h : st.get s = some sv) (hrole : sv.role ≠ .idle) : 1 ≤ sv.leaderEpoch :=
+  let g := epInv_reachable hr s sv h
+  g.2 (g.1 hrole)
+
+/-- A fetch sent in one term never contributes to a commit of a leader of ANOTHER term: whenever
+the request `m` a reachable follower sends is served by a server whose leader epoch differs from
+the one the follower follows — however much later, whatever happened in between — that server's
+state (recorded ISR offsets, commit-check signal, flags, HW) is unchanged, nothing is acknowledged
+and nothing is answered. -/
+theorem stale_term_fetch_never_counts (c : Cfg) (st st1 : State) (f : Sid) (hr : Reachable c st)
+    (hf : step c st (.fetch f) = some st1) :
+    ∃ sv m, st.get f = some sv ∧ st1.net = st.net ++ [m] ∧
+      ∀ (st2 st3 : State) (l : Sid) (lv : Srv), st2.get l = some lv → lv.leaderEpoch ≠ sv.leaderEpoch →
+        step c st2 (.serve l m) = some st3 →
+        st3.get l = some lv ∧ st3.acks = st2.acks ∧ st3.net = removeFirst st2.net m := by
+  obtain ⟨sv, h1, _, h2, h3, _⟩ := step_fetch hf
+  have hpos := follower_epoch_pos c st hr f sv h1 (by rw [h2]; decide)
+  refine ⟨sv, _, h1, h3, ?_⟩
+  intro st2 st3 l lv hl hne hs
+  obtain ⟨lv', src, off, ep, rid, hl', _, hm, _, hst⟩ := step_serve hs
+  rw [hl] at hl'
+  cases hl'
+  cases hm
+  rw [serveStep_other_term c lv f sv.log.newest sv.leaderEpoch (sv.rid + 1) (by omega) (Ne.symm hne)] at hst
+  subst hst
+  exact ⟨get_set_self lv (get_lt hl), rfl, by simp⟩
+
+/-- Guard scenario `stale-term-fetch-commits` (corpus/C02/guards): server 0 leads epoch 1, message 0
+is committed everywhere, message 1 reaches replica 2 only; server 0 crashes, server 1 is elected
+(epoch 2), drops server 0 from the ISR and receives message 2 (ALL) at offset 1; the last fetch of
+replica 2's OLD replication loop (epoch 1, offset 1) is served by the new leader. -/
+def staleFetchScenario : List IStep :=
+  [.raftCommit (.create 0), .applyNext 0, .applyNext 1, .offServe 0 0, .reconcile 1 0, .applyNext 2, .offServe 0 0, .reconcile 2 0, .publish 0 [{ mid := 0, cid := 100, policy := .all }], .fetch 1, .serve 0 0, .applyResp 1 0, .fetch 2, .serve 0 0, .applyResp 2 0, .fetch 1, .serve 0 0, .applyResp 1 0, .fetch 2, .serve 0 0, .applyResp 2 0, .commit 0, .commit 0, .commit 0, .publish 0 [{ mid := 1, cid := 101, policy := .all }], .fetch 2, .serve 0 0, .applyResp 2 0, .crash 0, .electDecision 1, .raftCommit (.changeLeader 1), .applyNext 1, .shrinkDecision 1 0, .raftCommit (.shrink 0), .applyNext 1, .commit 1, .publish 1 [{ mid := 2, cid := 102, policy := .all }], .commit 1, .fetch 2, .serve 1 0]
+
+/-- After it the new leader still records offset -1 for replica 2, no commit check is signalled,
+its HW has not moved, message 2 is not acknowledged and no C02 / C04 monitor fires (kernel
+evaluation through the regenerated fetch fields and rejection rule). -/
+theorem staleFetch_not_counted :
+    ((irun {} (init {}) staleFetchScenario).map fun st =>
+      ((st.get 1).map fun sv => [(sv.leaderEpoch : Int), (lookup sv.isrOff 2).getD 99, sv.commitCheck, sv.log.hw],
+       st.net.length, st.acks.map fun a => a.mid)) = some (some [2, -1, 0, -1], 0, [0]) ∧
+    replayViol {} staleFetchScenario = some [] := by
+  constructor <;> decide +kernel
+
 /-! ### non-vacuity -/
+
+/-- `expand_only_caught_up` is not vacuous: the expand proposal of the known-finding witness is enabled. -/
+example : ((irun {} (init {}) (isrReentryWitness.take 25)).bind fun st => istep {} st (.expandDecision 0 1)).isSome = true := by
+  decide +kernel
+
+/-- `stale_term_fetch_never_counts` is not vacuous: the stale fetch of the guard scenario is sent by a
+reachable follower of epoch 1 and served by the leader of epoch 2. -/
+example : ((irun {} (init {}) (staleFetchScenario.take 38)).map fun st =>
+    ((st.get 2).map fun sv => (sv.role, sv.leaderEpoch), (st.get 1).map fun sv => (sv.role, sv.leaderEpoch))) =
+    some (some (.follower, 1), some (.leader, 2)) := by
+  decide +kernel
 
 example : EpochsOK ([(1, -1), (2, 0), (3, 1)] : Epochs) := by
   unfold EpochsOK; decide
